@@ -13,7 +13,8 @@ from spacepackets.ecss.pus_17_test import Service17Tm
 from spacepackets.ecss import check_pus_crc
 from spacepackets.crc import CRC16_CCITT_FUNC
 from props.c01 import _fields as sph_fields
-from props.c02 import crc_ccitt, fit_bits, spread
+from props.c02 import crc_ccitt, fit_bits, spread, _pus_packet_problem, _sp_view_observe, _other_octets, _packed
+from spacepackets.ccsds.spacepacket import SpacePacketHeader
 
 
 def _tm(a):
@@ -58,12 +59,202 @@ def _detached_view(fields):
 _TM_VIEW, _S17_VIEW = _detached_view(_tm_fields), _detached_view(_s17_view)
 
 
+# ---- derived values the telemetry packet remembers (case key "hist" of tm_pack): read, change through the setters, read ----
+TM_VIEW_NAMES = ["packet_len", "fields", "to_space_packet", "calc_crc", "pack", "eq"]
+TM_SETTABLE = ["apid", "count", "msg_counter", "dest_id", "time_ref", "service", "subservice", "timestamp", "data", "version"]
+TM_TOP = {"apid": 2047, "count": 16383, "msg_counter": 65535, "dest_id": 65535, "time_ref": 15, "service": 255, "subservice": 255,
+          "version": 7}
+
+
+def _tm_views(final):
+    """every derived view of a telemetry packet as plain values. `pack` and `calc_crc` refresh the stored checksum,
+    `to_space_packet` is documented to calculate it too; `crc16` is looked at right after each of them (between a setter and
+    the next calculation it is, as documented, the stored result of the LAST calculation and not a view of the fields)."""
+    def crc_of(t):
+        return None if t.crc16 is None else hx(t.crc16)
+
+    def v_sp(t):
+        sp = t.to_space_packet()
+        return {"raw": hx(core.pack_stable(sp, "PusTm.to_space_packet().pack()")), "crc16": crc_of(t),
+                "apid": int(sp.apid), "count": int(sp.seq_count), "shf": bool(sp.sec_header_flag)}
+
+    def v_calc(t):
+        t.calc_crc()
+        return crc_of(t)
+
+    def v_pack(t):
+        raw = core.pack_stable(t, "PusTm.pack()")
+        return {"raw": hx(raw), "crc16": crc_of(t), "again": hx(t.pack(recalc_crc=False))}
+
+    def v_eq(t):
+        ref = _tm(final)
+        return [bool(t == ref), bool(ref == t)]
+    return [("packet_len", lambda t: int(t.packet_len)), ("fields", _tm_fields), ("to_space_packet", v_sp),
+            ("calc_crc", v_calc), ("pack", v_pack), ("eq", v_eq)]
+
+
+def _tm_mutate(t: PusTm, old, new, path: str):
+    """old -> new through the documented ways of changing a telemetry packet: "tm" the setters of PusTm (apid, tm_data;
+    the other fields have none and are attributes / setters of the two header objects it exposes), "hdr" the attributes /
+    setters of sp_header and pus_tm_sec_header only (source data still through tm_data, there is no other way), "replace"
+    new header objects stored in space_packet_header / pus_tm_sec_header. The packet version has no setter and the length
+    field follows the source data only: "tm" / "hdr" are used for histories that keep the version and the LENGTH of the
+    timestamp (the generator sees to that), "replace" for any."""
+    data, ts = unhx(new["data"]), unhx(new["timestamp"])
+    if path == "replace":
+        t.tm_data = data
+        t.space_packet_header = SpacePacketHeader(packet_type=t.sp_header.packet_type, apid=new["apid"], seq_count=new["count"],
+                                                  data_len=7 + len(ts) + len(data) + 1, sec_header_flag=True,
+                                                  ccsds_version=new["version"])
+        t.pus_tm_sec_header = type(t.pus_tm_sec_header)(service=new["service"], subservice=new["subservice"], timestamp=ts,
+                                                        message_counter=new["msg_counter"], dest_id=new["dest_id"],
+                                                        spacecraft_time_ref=new["time_ref"])
+        return
+    if new["version"] != old["version"] or len(new["timestamp"]) != len(old["timestamp"]):
+        raise core.InfraError("generator: a history through the setters cannot change the version / the timestamp length")
+    if new["apid"] != old["apid"]:
+        setattr(t.sp_header if path == "hdr" else t, "apid", new["apid"])
+    if new["count"] != old["count"]:
+        t.sp_header.seq_count = new["count"]
+    if new["data"] != old["data"]:
+        t.tm_data = data
+    for key, attr in (("service", "service"), ("subservice", "subservice"), ("msg_counter", "message_counter"),
+                      ("dest_id", "dest_id"), ("time_ref", "spacecraft_time_ref")):
+        if new[key] != old[key]:
+            setattr(t.pus_tm_sec_header, attr, new[key])
+    if new["timestamp"] != old["timestamp"]:
+        t.pus_tm_sec_header.timestamp = ts
+
+
+# things taken from a telemetry packet BEFORE it is changed and looked at AFTER (core.held_across_change)
+TM_HOLDERS = [("PusTm.to_space_packet()", lambda t: t.to_space_packet(), _sp_view_observe, lambda v: _pus_packet_problem(v["raw"]))]
+
+
+def _tm_after_history(a):
+    """the telemetry packet of the case's parameters, reached the long way: built (or decoded) with other values, looked at,
+    changed to the case's values through the setters; what it shows then is what a packet built directly with the case's
+    values shows. "hold": the generic space-packet view taken BEFORE the change still packs to the packet as it was"""
+    h = a["hist"]
+    old = h["from"]
+
+    def make():
+        t = _tm(old)
+        return PusTm.unpack(bytes(t.pack()) + b"\x00", len(t.timestamp)) if h.get("how") == "unpack" else t
+
+    def change(t):
+        _tm_mutate(t, old, a, h.get("path", "tm"))
+
+    def mutate(t):
+        if h.get("hold"):
+            bad = core.held_across_change(t, TM_HOLDERS, change, "PusTm")
+            if bad:
+                raise SelfCheckFailure(bad)
+        else:
+            change(t)
+    got = {}
+    err = core.read_mutate_read(make, _tm_views(a), mutate, lambda: _tm(a), "PusTm", first=h.get("read"), after=h.get("after"),
+                                out=got)
+    if err:
+        raise SelfCheckFailure(err)
+    return got["obj"], got["after"]
+
+
+def _tm_args_text(a) -> str:
+    return ", ".join(f"{k}={str(a[k])[:60]}" for k in TM_SETTABLE if k in a)
+
+
+def _tm_equality(a, full: bool, raw: bytes, make=None, decode=None, cls: str = "PusTm", attr: str = "", fixed=()) -> None:
+    """`==` between telemetry packets holding the values of `a`, in every state an application can hold them (see
+    core.equal_in_every_state); full=False: only the decoded / never-packed pair in both orders. make / decode: how the
+    packet is built / decoded (default PusTm itself; the service-17 wrapper hands in its own and compares the `pus_tm`
+    it wraps; fixed: fields the constructor handed in does not take)"""
+    n = len(a["timestamp"]) // 2
+    make = make or (lambda b=None: _tm(a if b is None else b))
+    decode = decode or (lambda octets: PusTm.unpack(octets, n))
+    raw = bytes(raw)
+
+    def prepared(step):
+        def build():
+            t = make()
+            step(t)
+            return t
+        return build
+
+    def reached(old, path, how="new"):
+        def build():
+            t = make(old)
+            t = decode(bytes(t.pack()) + b"\x00") if how == "unpack" else t
+            t.pack()                       # whatever the object remembers is now about the OLD values
+            _tm_mutate(t, old, a, path)
+            return t
+        return build
+
+    same = [(f"{cls}(<the same arguments>){attr}, nothing called on it", make)]
+    different = []
+    if full:
+        same += [(f"{cls}(<the same arguments>){attr}; o.pack()", prepared(lambda t: t.pack())),
+                 (f"{cls}(<the same arguments>){attr}; o.calc_crc()", prepared(lambda t: t.calc_crc())),
+                 (f"{cls}(<the same arguments>){attr}; o.to_space_packet()", prepared(lambda t: t.to_space_packet())),
+                 (f"{cls}(<the same arguments>){attr}; o.pack(recalc_crc=False)", prepared(lambda t: t.pack(recalc_crc=False))),
+                 (f"{cls}.unpack(<the same octets>, {n}){attr}", lambda: decode(raw)),
+                 (f"{cls}.unpack(<the same octets>, {n}){attr}; o.pack()", lambda: _packed(decode(raw))),
+                 (f"{cls}.unpack(bytearray(<the same octets>), {n}){attr}", lambda: decode(bytearray(raw)))]
+        far = dict(a)               # every field different; version and timestamp LENGTH as they are (no setter reaches them)
+        for key in [k for k in TM_SETTABLE if k not in fixed]:
+            if key == "timestamp":
+                far[key] = hx(bytes(x ^ 0xFF for x in unhx(a[key])))
+            elif key == "data":
+                far[key] = _other_octets(a[key], "far")
+            elif key != "version":
+                far[key] = a[key] ^ TM_TOP[key]
+            old = dict(a)
+            old[key] = far[key]
+            if old != a:
+                for path in ("tm", "hdr") if key == "apid" else ("tm",):
+                    same.append((f"{cls}(<{key} = {str(old[key])[:40]}, else the same>){attr}; o.pack(); {key} set to the final value "
+                                 f"through {'the setters of PusTm (o.apid / o.tm_data) or, where it has none, ' if path == 'tm' else ''}"
+                                 f"the attributes of o.sp_header / o.pus_tm_sec_header", reached(old, path)))
+            for how, name in (("bit", key + " (one bit)"), ("longer", key + " (one octet longer)")):
+                if key in ("timestamp", "data"):
+                    if how == "bit" and key == "timestamp" and not a[key]:
+                        continue
+                    v = _other_octets(a[key], how)
+                elif how == "longer":
+                    continue
+                else:
+                    v = a[key] ^ 1
+                diff = dict(a)
+                diff[key] = v
+                different.append((f"{cls}(<{name} differs: {str(v)[:40]}, else the same>){attr}, nothing called on it",
+                                  lambda d=diff: make(d)))
+                different.append((f"{cls}(<{name} differs: {str(v)[:40]}, else the same>){attr}; o.pack()",
+                                  lambda d=diff: _packed(make(d))))
+        if far != a:
+            same += [(f"{cls}(<every field but the version different>){attr}; o.pack(); every field set to the final value through the "
+                      f"setters / header attributes", reached(far, "tm")),
+                     (f"{cls}.unpack(<octets of a packet with every field but the version different>, {n}){attr}; o.pack(); every field "
+                      f"set to the final value through the header attributes", reached(far, "hdr", "unpack")),
+                     (f"{cls}(<every field but the version different>){attr}; o.pack(); o.tm_data = final data; o.space_packet_header, "
+                      f"o.pus_tm_sec_header = new header objects with the final values", reached(far, "replace"))]
+    err = core.equal_in_every_state(lambda: decode(raw), make, same, different, what=f"{cls}({_tm_args_text(a)}){attr}",
+                                    decoded=f"{cls}.unpack({hx(raw)[:120]}, {n}){attr}", both_sides=full)
+    if err:
+        raise SelfCheckFailure(err)
+
+
 def op_tm_new(a):
     return _tm_fields(_tm(a))
 
 
 def op_tm_pack(a):
-    t = _tm(a)
+    if a.get("hist"):
+        # the octets the changed packet showed (in the order of the case) are what the model is asked about
+        t, seen = _tm_after_history(a)
+        if all("ok" in seen.get(v, {}) for v in ("pack", "to_space_packet", "packet_len")):
+            return {"raw": seen["pack"]["ok"]["raw"], "sp_raw": seen["to_space_packet"]["ok"]["raw"],
+                    "packet_len": seen["packet_len"]["ok"]}
+    else:
+        t = _tm(a)
     # (packs twice, the caller modifying the first returned buffer in between)
     raw = core.pack_stable(t, "PusTm.pack()")
     if len(raw) != t.packet_len:
@@ -75,11 +266,15 @@ def op_tm_pack(a):
         raise SelfCheckFailure("unpack(pack(tm)) != tm under ==")
     if core.ISOLATION.check("PusTm", t2, _tm_fields) != _tm_fields(t):
         raise SelfCheckFailure("unpack(pack(tm)) has different field values")
+    _tm_undisturbed(t2, a, raw)
     if core.pack_stable(t2, "PusTm.pack() of a decoded packet") != raw:
         raise SelfCheckFailure("re-packing the decoded telemetry does not reproduce the octets")
     if raw[tmmod.PUS_TM_TIMESTAMP_OFFSET:tmmod.PUS_TM_TIMESTAMP_OFFSET + len(t.timestamp)] != bytes(t.timestamp):
         raise SelfCheckFailure("timestamp is not at PUS_TM_TIMESTAMP_OFFSET")
     sp = core.pack_stable(t.to_space_packet(), "PusTm.to_space_packet().pack()")
+    # "an equal telemetry packet": also equal to an original that was never packed itself, in both orders (case key "eq": in
+    # every state an application can hold the original in, and unequal to packets that differ in one field)
+    _tm_equality(a, bool(a.get("eq")), raw)
     return {"raw": hx(raw), "sp_raw": hx(sp), "packet_len": int(t.packet_len)}
 
 
@@ -91,6 +286,7 @@ def op_tm_unpack(a):
         raise SelfCheckFailure("crc16 of the decoded packet is not the packet's own trailer")
     # telemetry packets decoded by earlier calls must still show what they showed then
     f = core.ISOLATION.check("PusTm", t, _tm_fields)
+    _tm_equals_rebuilt(t, f, raw[:t.packet_len], a["ts_len"])
     if core.pack_stable(t, "PusTm.pack() of a decoded packet") != raw[:t.packet_len]:
         raise SelfCheckFailure("pack(unpack(b)) != b[:packet_len]")
     # decoded out of a receive buffer (a bytearray) that the receiver reuses afterwards: time stamp, source data and
@@ -98,6 +294,43 @@ def op_tm_unpack(a):
     core.check_detached(lambda b: PusTm.unpack(b, a["ts_len"]), raw, _TM_VIEW, "PusTm.unpack", expect=_TM_VIEW(t),
                         memview=core.accepts_memoryview(PusTm.unpack))
     return f
+
+
+def _tm_undisturbed(t2, a, raw: bytes) -> None:
+    """(the isolation clause in a form that needs no earlier case) the packet decoded from `raw` shows the same fields after
+    the octets of ANOTHER packet - every field different, another timestamp length - have been decoded as well"""
+    f = _tm_fields(t2)
+    ts, data = unhx(a["timestamp"]), unhx(a["data"])
+    b = {"service": a["service"] ^ 0xFF, "subservice": a["subservice"] ^ 0xFF, "apid": a["apid"] ^ 0x7FF, "count": a["count"] ^ 0x3FFF,
+         "msg_counter": a["msg_counter"] ^ 0xFFFF, "dest_id": a["dest_id"] ^ 0xFFFF, "time_ref": a["time_ref"] ^ 0xF,
+         "version": a["version"] ^ 7, "timestamp": hx(bytes(x ^ 0xFF for x in ts[:40]) + b"\x33"),
+         "data": hx(bytes(x ^ 0xFF for x in data[:40]) + b"\x5a")}
+    other = with_crc(spec_tm(b))
+    PusTm.unpack(other, len(b["timestamp"]) // 2)
+    now = _tm_fields(t2)
+    if now != f:
+        raise SelfCheckFailure(f"d = PusTm.unpack({hx(raw)[:120]}, {len(ts)}) showed {core._short(f)}; after PusTm.unpack({hx(other)[:120]}, "
+                               f"{len(b['timestamp']) // 2}) - the octets of another packet - d shows {core._short(now)}: an object "
+                               f"decoded earlier changed when another input was decoded")
+
+
+def _tm_equals_rebuilt(t, f, raw: bytes, ts_len: int, what: str = "PusTm.unpack", attr: str = "") -> None:
+    """the decoded packet (nothing called on it yet) and a packet built from the decoded field values on which nothing was
+    ever computed are equal, in both orders - whenever the constructor can express the decoded packet at all (it always
+    builds type TM / secondary header present / unsegmented)"""
+    try:
+        o = PusTm(service=f["service"], subservice=f["subservice"], timestamp=unhx(f["timestamp"]), source_data=unhx(f["data"]),
+                  apid=f["sph"]["apid"], seq_count=f["sph"]["count"], message_counter=f["msg_counter"],
+                  space_time_ref=f["time_ref"], destination_id=f["dest_id"], packet_version=f["sph"]["version"])
+    except ValueError:
+        return
+    if _tm_fields(o) != f:
+        return
+    got = core._eq_outcomes(t, o)
+    if got != [True, True, False, False]:
+        raise SelfCheckFailure(f"d = {what}({hx(raw)[:120]}, {ts_len}){attr}; o = PusTm(<the field values d shows: {core._short(f)}>), "
+                               f"nothing called on o: [d == o, o == d, d != o, o != d] is {got} - the decoded telemetry packet is "
+                               f"not equal to a packet with identical fields that was never packed itself")
 
 
 def op_s17_pack(a):
@@ -112,6 +345,18 @@ def op_s17_pack(a):
             raise SelfCheckFailure(f"Service17Tm round trip changes {attr}")
     if s2.sp_header != s.sp_header:
         raise SelfCheckFailure("Service17Tm round trip changes the space packet header")
+    # the telemetry packet inside the decoded wrapper equals the one inside a wrapper that was never packed (and a plain
+    # PusTm with service 17 and the same fields), both orders; key "eq": every state, as for PusTm
+    b = dict(a, service=17, msg_counter=0)
+    n = len(s.timestamp)
+    _tm_undisturbed(s2.pus_tm, b, raw)
+
+    def wrapped(args=None):
+        return _s17(b if args is None else args).pus_tm
+    _tm_equality(b, bool(a.get("eq")), raw, make=wrapped, decode=lambda octets: Service17Tm.unpack(octets, n).pus_tm,
+                 cls="Service17Tm", attr=".pus_tm", fixed=("service", "msg_counter"))
+    # (make = the plain class, decoded = out of the wrapper)
+    _tm_equality(b, False, raw, decode=lambda octets: Service17Tm.unpack(octets, n).pus_tm, cls="PusTm")
     return {"raw": hx(raw), "tm": _tm_fields(s.pus_tm)}
 
 
@@ -119,6 +364,7 @@ def op_s17_unpack(a):
     raw = unhx(a["raw"])
     s = Service17Tm.unpack(raw, a["ts_len"])
     f = core.ISOLATION.check("Service17Tm", s, _s17_view)
+    _tm_equals_rebuilt(s.pus_tm, f, raw[:s.pus_tm.packet_len], a["ts_len"], "Service17Tm.unpack", ".pus_tm")
     core.check_detached(lambda b: Service17Tm.unpack(b, a["ts_len"]), raw, _S17_VIEW, "Service17Tm.unpack", expect=_S17_VIEW(s),
                         memview=core.accepts_memoryview(Service17Tm.unpack))
     return f
@@ -343,6 +589,64 @@ class C03(Prop):
                         for k in ("service", "msg_counter"):
                             b.pop(k)
                         yield Case({"op": "s17_pack", **b}, "valid", tag="crc-zero-after-" + stage)
+        # a telemetry packet that reached the case's values the long way (key "hist"): built / decoded with other values, some or
+        # all of its derived views read (pack, calc_crc, to_space_packet, packet_len ...), then changed through the documented
+        # setters / header attributes / new header objects, then every view read again in the order the case gives: all of that
+        # must be what a packet built directly with the final values shows, and what the model packs. "hold": the generic
+        # space-packet view taken BEFORE the change is looked at AFTER it (it still packs to the packet as it was)
+        reads = [None, [], ["pack"], ["calc_crc"], ["to_space_packet"], ["packet_len", "fields"], ["pack", "to_space_packet"]]
+        firsts = ["to_space_packet", "calc_crc", "pack", "packet_len", "fields", "eq"]
+        k = 0
+        for rep in range(12 if thorough else 2):
+            for how in ("new", "unpack"):
+                for path in ("tm", "hdr", "replace"):
+                    for rd in reads:
+                        for what in TM_SETTABLE + ["all", "some"]:
+                            k += 1
+                            if (rep or what not in ("apid", "all")) and (k + rep) % 7:
+                                continue
+                            if what == "version" and path != "replace":
+                                continue
+                            a = rand_args(rng)
+                            n_ts = len(a["timestamp"]) // 2
+                            if what in ("all", "some"):
+                                old = rand_args(rng, ts=None if path == "replace" else n_ts)
+                                if path != "replace":
+                                    old["version"] = a["version"]
+                                if what == "some":
+                                    for key in rng.sample(TM_SETTABLE, rng.randint(1, 5)):
+                                        if path == "replace" or key != "timestamp":
+                                            old[key] = a[key]
+                            else:
+                                old = dict(a)
+                                if what == "data":
+                                    n = len(unhx(a["data"]))
+                                    old["data"] = hx(rbytes(rng, rng.choice([n, n, n + 1, max(0, n - 1), 0, rng.randint(0, 40)])))
+                                elif what == "timestamp":
+                                    m = n_ts if path != "replace" else rng.choice([n_ts, n_ts + 1, max(0, n_ts - 1), 0, 7])
+                                    old["timestamp"] = hx(rbytes(rng, m))
+                                else:
+                                    top = TM_TOP[what]
+                                    old[what] = rng.choice([(a[what] + 1) % (top + 1), a[what] ^ top, rng.randint(0, top)])
+                            first = firsts[k % len(firsts)]
+                            rest = [v for v in TM_VIEW_NAMES if v != first]
+                            rng.shuffle(rest)
+                            yield Case({"op": "tm_pack", **a, "hist": {"from": old, "how": how, "path": path, "read": rd,
+                                                                       "after": [first] + rest, "hold": bool((k // 7 + rep) % 2)}},
+                                       "valid", tag="read-set-read")
+        # "an equal telemetry packet" whatever state the original is in (key "eq"): never packed, packed, checksum calculated,
+        # values reached through the setters after a pack(), decoded twice ...; unequal when one field differs
+        for i in range(500 if thorough else 40):
+            a = rand_args(rng, dlen=rng.choice([0, 1, 2, 5, 17]) if i % 8 else None)
+            if i % 3 == 0:
+                a.update(apid=rng.choice(pool(2047, rng, 0)), count=rng.choice(pool(16383, rng, 0)),
+                         msg_counter=rng.choice(pool(65535, rng, 0)), dest_id=rng.choice(pool(65535, rng, 0)))
+            yield Case({"op": "tm_pack", **a, "eq": True}, "valid", tag="equality-states")
+            if i % 4 == 1:
+                b = dict(a)
+                for key in ("service", "msg_counter"):
+                    b.pop(key)
+                yield Case({"op": "s17_pack", **b, "eq": True}, "valid", tag="equality-states")
         for _ in range(20000 if thorough else 3000):
             ln = rng.randint(0, 48)
             b = bytearray(rbytes(rng, ln))
